@@ -130,6 +130,7 @@ inductive Final (X Y : Type) where
   | done (fval : Y) (x : X) (evals : Nat) (exc : Option Stop)
   /-- `get_best()` with `best_x = None` (unreachable, see `maximise_never_worse`) -/
   | noBest
+  deriving Repr, DecidableEq
 
 structure Run (X Y : Type) where
   st : St X Y
@@ -188,5 +189,108 @@ def clampStart (lt close : R → R → Bool) (v : List (Coord R)) : List (Coord 
 /-- `bounded_function`'s test on a coordinate vector: `lo <= x <= hi`, i.e. neither `x < lo` nor `hi < x` -/
 def inBounds (lt : R → R → Bool) (v : List (Coord R)) : Bool :=
   v.all (fun c => !(lt c.x c.lo) && !(lt c.hi c.x))
+
+/-! ## 3. nested-model parameter projection (`evolve/likelihood_function.py`)
+
+A model's `get_param_matrix_coords(include_ref_cell=True)` is an association list
+`name ↦ list of rate-matrix cells` (each list duplicate-free, in Python's set iteration order;
+only `_rate_not_same` depends on the order).  `ref` is the key `"ref_cell"`. -/
+
+abbrev Cell := Nat × Nat
+abbrev Coords (N : Type) := List (N × List Cell)
+
+inductive MapErr where
+  | assertion   -- `assert len(rich) >= len(simple)`
+  | tie         -- ValueError "... tied for matrix space"
+  | noRef       -- IndexError: `list(rich_coords["ref_cell"])[0]` on an empty / missing reference cell
+  deriving Repr, DecidableEq
+
+/-- `rich_coords <= simple_coords` -/
+def subset (a b : List Cell) : Bool := a.all (fun c => b.contains c)
+
+/-- the simple parameters a rich parameter is `<=` of (the final `rich_to_simple[rich_param]`) -/
+def counterparts (simple : Coords N) (rc : List Cell) : Coords N :=
+  simple.filter (fun sp => subset rc sp.2)
+
+/-- tie-break: the counterpart with the strictly smallest coordinate set; two smallest of equal
+size ⇒ ValueError; no counterpart ⇒ the rich parameter is unmapped -/
+def chosen (cs : Coords N) : Except MapErr (Option N) :=
+  match cs with
+  | [] => .ok none
+  | [a] => .ok (some a.1)
+  | a :: rest =>
+    let m := rest.foldl (fun m sp => min m sp.2.length) a.2.length
+    match (a :: rest).filter (fun sp => sp.2.length == m) with
+    | [b] => .ok (some b.1)
+    | _ => .error .tie
+
+/-- for every rich parameter the simple parameter it takes its value from -/
+def chosenAll (rich simple : Coords N) : Except MapErr (List (N × Option N)) :=
+  rich.mapM (fun rp => (chosen (counterparts simple rp.2)).map (fun c => (rp.1, c)))
+
+/-- the rich parameters assigned to simple parameter `sp` (`simple_to_rich[sp]`), in `rich` order -/
+def mappedTo [BEq N] (ch : List (N × Option N)) (sp : N) : List N :=
+  (ch.filter (fun rc => rc.2 == some sp)).map (·.1)
+
+/-- `_get_param_mapping(rich, simple)`: `simple name ↦ rich names` -/
+def paramMapping [BEq N] (rich simple : Coords N) : Except MapErr (List (N × List N)) :=
+  if rich.length < simple.length then .error .assertion
+  else (chosenAll rich simple).map (fun ch => simple.map (fun sp => (sp.1, mappedTo ch sp.1)))
+
+def coordsOf [BEq N] (cs : Coords N) (n : N) : List Cell :=
+  match cs.find? (fun p => p.1 == n) with
+  | some p => p.2
+  | none => []
+
+/-- the rich names that `_rate_same/_rate_not_same` emit a term for: mapped to `sp`, not the
+reference cell, and with a non-empty coordinate set (the `for i, j in coords` loop body runs) -/
+def targets [BEq N] (ref : N) (rich : Coords N) (ch : List (N × Option N)) (sp : N) : List N :=
+  (mappedTo ch sp).filter (fun rp => !(rp == ref) && !(coordsOf rich rp).isEmpty)
+
+/-- `_ParamProjection.update_param_rules` with `same=True`: rules are `(par_name, mle)`;
+`pass` marks `"mprobs"`/`"length"` rules, which are kept unchanged -/
+def projectSame [BEq N] (ref : N) (pass : N → Bool) (rich : Coords N) (ch : List (N × Option N))
+    (rules : List (N × V)) : List (N × V) :=
+  rules.flatMap (fun r => if pass r.1 then [r] else (targets ref rich ch r.1).map (fun rp => (rp, r.2)))
+
+/-- column index `j` of the LAST cell of a coordinate list (what the `for i, j in …` loop of
+`_rate_not_same` leaves in `new_terms[rich_param]`) -/
+def lastCol (cells : List Cell) : Option Nat := cells.getLast?.map (·.2)
+
+/-- `update_param_rules` with `same=False`: a rule `("ref_cell", 1.0)` is appended, and every
+term is `motif_probs[j] * mle / motif_probs[j_ref]` -/
+def projectNotSame [BEq N] (mul div : V → V → V) (one : V) (pi : Nat → V) (ref : N) (pass : N → Bool)
+    (rich : Coords N) (ch : List (N × Option N)) (rules : List (N × V)) : Except MapErr (List (N × V)) :=
+  match (coordsOf rich ref).head? with
+  | none => .error .noRef
+  | some rc =>
+    .ok ((rules ++ [(ref, one)]).flatMap (fun r =>
+      if pass r.1 then [r]
+      else (targets ref rich ch r.1).map (fun rp =>
+        (rp, div (mul (pi ((lastCol (coordsOf rich rp)).getD 0)) r.2) (pi rc.2)))))
+
+/-- entry of the exchangeability matrix at `cell` described by a rule list: the product of the
+values of the rules whose parameter's coordinate set contains the cell (parameters without a rule,
+and the reference cell, contribute the neutral factor: fresh likelihood functions start every
+rate parameter at 1.0) -/
+def cellRate [BEq N] (mul : V → V → V) (one : V) (cs : Coords N) (rules : List (N × V)) (cell : Cell) : V :=
+  ((rules.filter (fun r => (coordsOf cs r.1).contains cell)).map (·.2)).foldr mul one
+
+/-- all cells named by a coordinate family -/
+def cellsOf (cs : Coords N) : List Cell := cs.flatMap (·.2)
+
+/-- **the decidable nesting predicate** (same=True): the mapping exists, and for every simple
+rate parameter `sp` (≠ reference cell) and every cell of either family, the number of rich
+parameters that take their value from `sp` and cover the cell is 1 if `sp` covers the cell and 0
+otherwise. -/
+def nestedSame [BEq N] (ref : N) (rich simple : Coords N) : Bool :=
+  if rich.length < simple.length then false else
+  match chosenAll rich simple with
+  | .error _ => false
+  | .ok ch =>
+    simple.all (fun sp => sp.1 == ref ||
+      (cellsOf rich ++ cellsOf simple).all (fun cell =>
+        ((targets ref rich ch sp.1).filter (fun rp => (coordsOf rich rp).contains cell)).length
+          == (if sp.2.contains cell then 1 else 0)))
 
 end CogentModel.Optimiser
